@@ -322,7 +322,7 @@ def sweep_cases(nlocals, ntypes, maxpeers=3):
 
 
 HEADER_VARIANTS = [[], [b""], [b" "], [b"x"], [b"\t"], [b"  x  "], [b" ", b"y"], [b"y", b""], [b"0"], [b"false"], [b"\x01"],
-                   [b"\x80\xff"], [b" \t "], [b"spoofed-by-client"], [b"n1"], [b"   "], [b"\x00"], [b"a b"], [b"\x7f"], [b"x" * 300]]
+                   [b"\x80\xff"], [b" \t "], [b"spoofed-by-client"], [b"n1"], [b"   "], [b"\x00"], [b"a b"], [b"\x7f"], [b"x" * 40]]
 
 
 def decide_cases(rng, nlocals, n_random):
@@ -351,7 +351,8 @@ def endpoint_requests(eps):
         if route.startswith("/api/v1/import/"):
             body = {"csv": "csv-multipart", "parquet": "parquet-multipart", "lp": "lp-multipart", "tle": "tle-multipart"}.get(
                 route.rsplit("/", 1)[-1], "lp-multipart")
-            path += "?measurement=verifimp"
+            if not route.endswith("/lp"):
+                path += "?measurement=verifimp"
         elif e["is_write"]:
             body = "msgpack" if "msgpack" in route else ("tle" if "tle" in route else "lp")
             path += "?db=verifdb&bucket=verifdb"
@@ -374,11 +375,11 @@ def e2e_cases(rng, P, n):
 
     def node(i, rn, view, router=True, has_local=True, nid=None, strategy="rr"):
         return {"id": b64(nid if nid is not None else "n%d" % i), "router": router, "has_local": has_local,
-                "role": R[rn] if rn in R else rn, "rn": rn, "strategy": strategy, "view": view}
+                "role": R[rn] if rn in R else rn, "strategy": strategy, "view": view}
 
     def ve(i, rn, wn="WriterStateNone", sn="StateHealthy", nid=None, ghost=False):
-        return {"node": -1 if ghost else i, "id": b64(nid if nid is not None else "n%d" % i), "role": R[rn] if rn in R else rn, "rn": rn,
-                "ws": W[wn], "wn": wn, "state": S[sn], "sn": sn}
+        return {"node": -1 if ghost else i, "id": b64(nid if nid is not None else "n%d" % i), "role": R[rn] if rn in R else rn,
+                "ws": W[wn], "state": S[sn]}
 
     # hand-written corner cases first
     fixed([node(0, "RoleReader", [ve(1, "RoleWriter")]), node(1, "RoleWriter", [ve(0, "RoleReader")])], 0, 0)
@@ -403,17 +404,21 @@ def e2e_cases(rng, P, n):
             while nid in ids:
                 nid = nid + b"%d" % i
             ids.append(nid)
-        actual = [rng.choice(role_names + ["RoleWriter", "RoleReader"]) for _ in range(size)]
+        actual = [rng.choice(role_names + ["RoleWriter", "RoleReader", "RoleCompactor"]) for _ in range(size)]
+        if size >= 2 and rng.random() < 0.75:          # most clusters have a writer and a node that needs one
+            actual[rng.randrange(size)] = "RoleWriter"
+            others = [i for i in range(size) if actual[i] != "RoleWriter"] or [0]
+            actual[rng.choice(others)] = rng.choice(["RoleReader", "RoleCompactor"])
         truthful = rng.random() < 0.6
         nodes = []
         for i in range(size):
             view = []
             for j in range(size):
-                if j == i or rng.random() < 0.15:
+                if j == i or rng.random() < 0.08:
                     continue
                 rn = actual[j] if (truthful or rng.random() < 0.5) else rng.choice(role_names)
                 wn = rng.choice(list(WS_CTOR)) if rn == "RoleWriter" else rng.choice(["WriterStateNone", "WriterStateNone", "WriterStatePrimary"])
-                sn = rng.choice(["StateHealthy", "StateHealthy", "StateHealthy", "StateUnhealthy", "StateJoining", "StateDead", "StateUnknown", "StateLeaving"])
+                sn = rng.choice(["StateHealthy"] * 7 + ["StateUnhealthy", "StateJoining", "StateDead", "StateUnknown", "StateLeaving"])
                 view.append(ve(j, rn, wn, sn, nid=ids[j].decode("latin-1")))
             if rng.random() < 0.1:
                 view.append(ve(90 + i, rng.choice(["RoleWriter", "RoleReader"]), nid="ghost%d" % i, ghost=True))
@@ -421,13 +426,16 @@ def e2e_cases(rng, P, n):
             nodes.append(node(i, actual[i], view, router=router, has_local=rng.random() > 0.04, nid=ids[i].decode("latin-1"),
                               strategy=rng.choice(["rr", "lc", "random"])))
         header = None
-        if rng.random() < 0.35:
+        if rng.random() < 0.25:
             header = b64(rng.choice([b"x", b" ", b"", b"\t", b"n0", b"  spoof ", b"\x01"]))
         kind = rng.randrange(2)
         route = ""
         if kind == 0 and rng.random() < 0.3:
             route = rng.choice(["/api/v1/write/line-protocol", "/write?db=verifdb", "/api/v2/write?bucket=verifdb"])
-        cases.append({"nodes": nodes, "entry": rng.randrange(size), "kind": kind, "header": header, "route": route})
+        # prefer an entry node that cannot serve the request, so that most cases forward
+        weak = [i for i in range(size) if nodes[i]["router"] and actual[i] in (("RoleReader", "RoleCompactor") if kind == 0 else ("RoleCompactor",))]
+        entry = rng.choice(weak) if weak and rng.random() < 0.8 else rng.randrange(size)
+        cases.append({"nodes": nodes, "entry": entry, "kind": kind, "header": header, "route": route})
     return cases
 
 
@@ -442,11 +450,6 @@ def obs_coq(o):
     return "(%d, %d, %s)" % (o["class"], o["target"], cbytes(unb64(o["marker"])))
 
 
-def sweep_coq(c, obs):
-    return "{| sw_local := %d; sw_kind := %s; sw_hdr := %s; sw_peers := %s; sw_obs := %s |}" % (
-        c[0], KIND[c[1]], cbool(c[2] == 1), clist([str(x) for x in c[4:]]), clist([obs_coq(o) for o in obs]))
-
-
 def decide_coq(d, o):
     return "{| dc_local := %d; dc_kind := %s; dc_vals := %s; dc_seen := %s; dc_decision := %d; dc_wrapper := %d; dc_should := %s |}" % (
         d["local"], KIND[d["kind"]], clist([cbytes(v) for v in d["vals"]]), cbytes(unb64(o["seen"])),
@@ -458,21 +461,26 @@ def endpoint_coq(e, o):
         cbool(e["consults"]), KIND[0 if e["is_write"] else 1], clist([obs_coq(x) for x in o["obs"]]))
 
 
-def node_coq(nid, rn, wn, sn):
+def node_coq(P, nid, role, ws, state):
+    rn = {v: k for k, v in P["roles"].items()}.get(role)
+    wn = {v: k for k, v in P["wss"].items()}.get(ws)
+    sn = {v: k for k, v in P["states"].items()}.get(state)
+    if wn is None or sn is None:
+        raise vlib.InfraError("e2e case uses writer state %r / state %r unknown to the source" % (ws, state))
     return "{| n_id := %s; n_role := %s; n_ws := %s; n_state := %s |}" % (
         cbytes(nid), ROLE_CTOR.get(rn, "OtherRole"), WS_CTOR[wn], STATE_CTOR[sn])
 
 
-def e2e_coq(c, o):
+def e2e_coq(P, c, o):
     nodes = []
     for nd in c["nodes"]:
         nid = unb64(nd["id"])
         if not nd["router"]:
             nodes.append("{| a_id := %s; a_router := None |}" % cbytes(nid))
             continue
-        view = [node_coq(unb64(v["id"]), v["rn"], v["wn"], v["sn"]) for v in nd["view"]]
+        view = [node_coq(P, unb64(v["id"]), v["role"], v["ws"], v["state"]) for v in nd["view"]]
         if nd["has_local"]:
-            me = node_coq(nid, nd["rn"], "WriterStateNone", "StateHealthy")
+            me = node_coq(P, nid, nd["role"], P["wss"]["WriterStateNone"], P["states"]["StateHealthy"])
             nodes.append("{| a_id := %s; a_router := Some {| r_local := Some %s; r_reg := %s |} |}" % (cbytes(nid), me, clist([me] + view)))
         else:
             nodes.append("{| a_id := %s; a_router := Some {| r_local := None; r_reg := %s |} |}" % (cbytes(nid), clist(view)))
@@ -491,20 +499,89 @@ def coq_header(locals_, types):
     return h
 
 
-def coq_eval_parallel(pid, header, case_type, terms, preds, chunk, name):
-    """vlib.coq_check_cases on chunks, several coqc processes at a time."""
-    offs = list(range(0, len(terms), chunk))
-    res = {k: [] for k in preds}
-    if not offs:
-        return res
+def sweep_codes(obs_list):
+    """One small number per sweep observation: class + 8*(peer index + 8*marker index)."""
+    markers = [b""]
+    codes = []
+    for obs in obs_list:
+        o = obs[0]
+        m = unb64(o["marker"])
+        if m not in markers:
+            markers.append(m)
+        cls = o["class"] if 0 <= o["class"] < 8 else 7
+        if not 0 <= o["target"] < 8:
+            raise vlib.TieBroken("sweep: peer index %r out of range" % o["target"])
+        codes.append(cls + 8 * (o["target"] + 8 * markers.index(m)))
+    return markers, codes
 
-    def one(off):
-        r = vlib.coq_check_cases(pid, header, case_type, terms[off:off + chunk], preds, chunk=chunk, name="%s_%d" % (name, off))
-        return off, r
-    with ThreadPoolExecutor(max_workers=max(1, min(8, vlib.NCPU // 2))) as ex:
-        for off, r in ex.map(one, offs):
-            for k in preds:
-                res[k] += [off + x for x in r[k]]
+
+def sweep_job(header, nl, nt, cases, markers, codes, start, n, name, goff=0):
+    """Coq source checking observations start..start+n against the enumeration made INSIDE Coq.
+    The codes are shipped dictionary-coded: one block = the observations of one peer multiset
+    (all local configurations x kinds x marker), distinct blocks listed once."""
+    blk = nl * 4
+    assert start % blk == 0 and n % blk == 0
+    patterns, index = [], []
+    for i in range(start, start + n, blk):
+        pat = tuple(codes[i:i + blk])
+        if pat not in patterns:
+            patterns.append(pat)
+        index.append(patterns.index(pat))
+    spots = sorted({0, n - 1} | set(range(0, n, 997)))
+    src = header
+    src += "Definition v_markers : list bytes := %s.\n" % clist([cbytes(m) for m in markers])
+    src += "Definition v_inputs := firstn (N.to_nat %d) (skipn (N.to_nat %d) (sweep_inputs (N.to_nat %d) (N.to_nat %d) 3)).\n" % (n, start, nl, nt)
+    src += "Definition v_patterns : list (list N) := [\n%s].\n" % ";\n".join(clist([str(x) for x in pat]) for pat in patterns)
+    src += "Definition v_index : list N := [\n%s].\n" % ";\n".join("; ".join(str(x) for x in index[i:i + 40]) for i in range(0, len(index), 40))
+    src += "Definition v_codes : list N := flat_map (fun i => nth (N.to_nat i) v_patterns []) v_index.\n"
+    src += "Definition v_spots : list (N * (N * kind * bool * list N)) := %s.\n" % clist(
+        ["(%d, (%d, %s, %s, %s))" % (i, cases[start + i][0], KIND[cases[start + i][1]], cbool(cases[start + i][2] == 1),
+                                   clist([str(x) for x in cases[start + i][4:]])) for i in spots])
+    src += "Definition v_cases := sweep_cases_of v_markers v_inputs v_codes.\n"
+    src += ("Definition verif_len := Eval vm_compute in (N.of_nat (length v_cases), N.of_nat (length v_codes), "
+            "spots_ok v_inputs (map (fun s => (N.to_nat (fst s), snd s)) v_spots)).\nPrint verif_len.\n")
+    src += "Definition verif_agree := Eval vm_compute in summaryN (failingN (sweep_agrees v_locals v_types) 0 v_cases).\nPrint verif_agree.\n"
+    src += "Definition verif_oracle := Eval vm_compute in summaryN (failingN (sweep_oracle v_locals v_types) 0 v_cases).\nPrint verif_oracle.\n"
+
+    def go():
+        rc, out = vlib.coq_eval("C30", name, src)
+        ag, orc = parse_summary(out, "verif_agree"), parse_summary(out, "verif_oracle")
+        m = re.search(r"verif_len\s*=\s*\((\d+),\s*(\d+),\s*(true|false)\)", out)
+        if rc != 0 or ag is None or orc is None or not m:
+            raise vlib.InfraError("sweep evaluation failed: " + out[-2500:])
+        if int(m.group(1)) != n or int(m.group(2)) != n or m.group(3) != "true":
+            raise vlib.InfraError("sweep enumeration in Coq and in C30.py differ (%s) - fix tools/props/C30.py / Model.sweep_inputs" % m.group(0))
+        return "sweep", goff + start, {"agree": ag, "oracle": orc}
+    return go
+
+
+def parse_summary(out, label):
+    """`label = (count, [i; j; ...])` -> list of indices (at most 60 are listed; the count is kept
+    by padding with the last index so that len() stays the number of failing cases)."""
+    m = re.search(re.escape(label) + r"\s*=\s*\((\d+),\s*(\[[^\]]*\]|nil)\)", out)
+    if not m:
+        return None
+    idx = [int(x) for x in re.findall(r"\d+", m.group(2))]
+    return idx + idx[-1:] * (int(m.group(1)) - len(idx))
+
+
+def cases_job(sec, header, case_type, terms, preds, start, n, name):
+    def go():
+        r = vlib.coq_check_cases("C30", header, case_type, terms[start:start + n], preds, chunk=max(n, 1), name=name)
+        return sec, start, r
+    return go
+
+
+def run_jobs(jobs):
+    res = {}
+    with ThreadPoolExecutor(max_workers=max(2, min(10, vlib.NCPU - 2))) as ex:
+        for sec, start, r in ex.map(lambda j: j(), jobs):
+            d = res.setdefault(sec, {"agree": [], "oracle": []})
+            for k in ("agree", "oracle"):
+                d[k] += [start + x for x in r[k]]
+    for d in res.values():
+        d["agree"].sort()
+        d["oracle"].sort()
     return res
 
 
@@ -518,21 +595,29 @@ def harness_input(P, tier, seed, sections=("sweep", "decide", "endpoints", "e2e"
     locals_ = local_table(P)
     inp = {"roles": list(P["roles"].values()) + UNKNOWN_ROLES, "types": [{k: t[k] for k in ("role", "ws", "state")} for t in types],
            "locals": [{k: l[k] for k in ("router", "has_local", "id", "role")} for l in locals_], "trials": 1,
-           "sweep": [], "decide": [], "endpoints": [], "e2e": []}
+           "sweep": [], "decide": [], "endpoints": [], "e2e": [], "wired": P["wired"]}
     meta = {"types": types, "locals": locals_}
+    meta["sweep_pass_len"] = 0
     if "sweep" in sections:
-        inp["sweep"] = sweep_cases(len(locals_), len(types))
+        one = sweep_cases(len(locals_), len(types))
+        meta["sweep_pass_len"] = len(one)
+        # second pass: the same space with the other load-balancing strategy on every case
+        inp["sweep"] = one + [c[:3] + [1 - c[3]] + c[4:] for c in one]
     if "decide" in sections:
         meta["decide"] = decide_cases(rng, len(locals_), 150 if tier == "quick" else 3000)
         inp["decide"] = [{"local": d["local"], "kind": d["kind"], "raw": d["raw"]} for d in meta["decide"]]
     if "endpoints" in sections:
         inp["endpoints"] = endpoint_requests(P["endpoints"])
     if "e2e" in sections:
-        meta["e2e"] = e2e_cases(rng, P, 260 if tier == "quick" else 4000)
-        inp["e2e"] = [{"nodes": [{k: nd[k] for k in ("id", "router", "has_local", "role", "strategy")} |
-                                 {"view": [{k: v[k] for k in ("node", "id", "role", "ws", "state")} for v in nd["view"]]}
-                                 for nd in c["nodes"]],
-                       "entry": c["entry"], "kind": c["kind"], "header": c["header"], "route": c["route"]} for c in meta["e2e"]]
+        corpus = []
+        cdir = os.path.join(vlib.ROOT, "corpus", "C30")
+        for fn in sorted(os.listdir(cdir)) if os.path.isdir(cdir) else []:
+            if fn.endswith(".json"):
+                obj = json.load(open(os.path.join(cdir, fn)))
+                if obj.get("section") == "e2e" and obj.get("case"):
+                    corpus.append(obj["case"])
+        inp["e2e"] = corpus + e2e_cases(rng, P, 300 if tier == "quick" else 4000)
+        meta["e2e"] = inp["e2e"]
     return inp, meta
 
 
@@ -569,6 +654,10 @@ def run(res, tier, seed):
                          "router_wired": P["wired"]}
 
     failed = vlib.std_proof_stage(res, "C30", AREA, MODULES, THEOREMS, extra_targets=["theories/Routing/Obligations.vo"])
+    if tier == "thorough" and hasattr(vlib, "coqchk_stage"):
+        ok, _ = vlib.coqchk_stage(res, MODULES)
+        if not ok:
+            failed.append(("coqchk", "coqchk rejects the compiled Routing development"))
     res.cov["trusted_base"] += [
         "HTTP header transport is an oracle transcribed into the model (fasthttp strips spaces from a received value, net/http trims "
         "space/tab from a sent value and refuses control bytes) and exercised by the decide/e2e correspondence on raw wire bytes",
@@ -586,17 +675,32 @@ def run(res, tier, seed):
             raise vlib.TieBroken("harness returned %d %s results for %d cases" % (len(out.get(sec) or []), sec, len(inp[sec])))
     t2 = time.time()
     header = coq_header(locals_, types)
-    sw_terms = [sweep_coq(c, o) for c, o in zip(inp["sweep"], out["sweep"])]
-    sw = coq_eval_parallel("C30", header, "sweep_case", sw_terms,
-                           {"agree": "sweep_agrees v_locals v_types", "oracle": "sweep_oracle v_locals v_types"}, 3000, "Sweep_" + tier)
+    npass = len(inp["sweep"]) // meta["sweep_pass_len"] if meta["sweep_pass_len"] else 0
+    jobs = []
+    plen = meta["sweep_pass_len"]
+    chunk = len(locals_) * 4 * (250 if tier == "quick" else 1500)
+    for ps in range(npass):
+        cases_p = inp["sweep"][ps * plen:(ps + 1) * plen]
+        markers, codes = sweep_codes(out["sweep"][ps * plen:(ps + 1) * plen])
+        for start in range(0, plen, chunk):
+            jobs.append(sweep_job(header, len(locals_), len(types), cases_p, markers, codes, start, min(chunk, plen - start),
+                                  "Sweep_%s_p%d_%d" % (tier, ps, start), goff=ps * plen))
     dc_terms = [decide_coq(d, o) for d, o in zip(meta["decide"], out["decide"])]
-    dc = vlib.coq_check_cases("C30", header, "decide_case", dc_terms,
-                              {"agree": "decide_agrees v_locals", "oracle": "decide_oracle v_locals"}, chunk=4000, name="Decide_" + tier)
+    for start in range(0, len(dc_terms), 400):
+        jobs.append(cases_job("decide", header, "decide_case", dc_terms, {"agree": "decide_agrees v_locals", "oracle": "decide_oracle v_locals"},
+                              start, min(400, len(dc_terms) - start), "Decide_%s_%d" % (tier, start)))
     ep_terms = [endpoint_coq(e, o) for e, o in zip(P["endpoints"], out["endpoints"])]
-    ep = vlib.coq_check_cases("C30", header, "endpoint_case", ep_terms, {"agree": "endpoint_agrees", "oracle": "endpoint_oracle"},
-                              name="Endpoints_" + tier)
-    ee_terms = [e2e_coq(c, o) for c, o in zip(meta["e2e"], out["e2e"])]
-    ee = coq_eval_parallel("C30", header, "e2e_case", ee_terms, {"agree": "e2e_agrees", "oracle": "e2e_oracle"}, 500, "E2E_" + tier)
+    jobs.append(cases_job("endpoints", header, "endpoint_case", ep_terms, {"agree": "endpoint_agrees", "oracle": "endpoint_oracle"},
+                          0, len(ep_terms), "Endpoints_" + tier))
+    ee_terms = [e2e_coq(P, c, o) for c, o in zip(inp["e2e"], out["e2e"])]
+    for start in range(0, len(ee_terms), 100):
+        jobs.append(cases_job("e2e", header, "e2e_case", ee_terms, {"agree": "e2e_agrees", "oracle": "e2e_oracle"},
+                              start, min(100, len(ee_terms) - start), "E2E_%s_%d" % (tier, start)))
+    R = run_jobs(jobs)
+    empty = {"agree": [], "oracle": []}
+    swp, dc, ep, ee = R.get("sweep", empty), R.get("decide", empty), R.get("endpoints", empty), R.get("e2e", empty)
+    sw = swp
+    sw_terms = inp["sweep"]
     res.stage("coq_eval", t2)
 
     # ---- coverage -------------------------------------------------------------------------
@@ -657,45 +761,49 @@ def run(res, tier, seed):
                            "observed": o["obs"], "model_predicted_this": predicted,
                            "how_to_replay": "python3 tools/check.py C30 --replay <this file>"}, suffix="endpoint")
             reported = True
-    for i in ep["agree"]:
-        if i in ep["oracle"] and not (finding_signature(P["endpoints"][i]) in known and not P["endpoints"][i]["consults"]):
-            continue            # already reported above with the concrete input
-        if i in ep["oracle"]:
-            continue
+    deferred = []            # correspondence-only reports go after the concrete failing inputs
+    ep_corr = [i for i in ep["agree"] if i not in ep["oracle"]]
+    if ep_corr:
+        i = ep_corr[0]
         e = P["endpoints"][i]
-        res.violation("%s %s: static 'consults the decision' = %s but the handler behaves otherwise" % (e["method"], e["route"], e["consults"]),
-                      {"kind": "correspondence", "correspondence": TIE_NAME, "section": "endpoints", "endpoint": e,
-                       "request": inp["endpoints"][i], "observed": out["endpoints"][i]["obs"]}, no_input=True, suffix="corr")
-        reported = True
+        deferred.append(("%s %s (and %d more endpoints): static 'consults the decision' = %s but the real handler behaves differently from the model"
+                         % (e["method"], e["route"], len(ep_corr) - 1, e["consults"]),
+                         {"kind": "correspondence", "correspondence": TIE_NAME, "section": "endpoints", "endpoint": e,
+                          "request": inp["endpoints"][i], "observed": out["endpoints"][i]["obs"],
+                          "all_disagreeing_endpoints": [P["endpoints"][j]["method"] + " " + P["endpoints"][j]["route"] for j in ep_corr]}))
 
     def report(sec, idxs_agree, idxs_oracle, cases, obs, what):
         nonlocal reported
+        tables = {"locals": inp["locals"], "types": inp["types"]} if sec in ("sweep", "decide") else None
         for i in idxs_oracle[:3]:
             res.violation("%s: property oracle fails on the implementation's output" % what,
-                          {"kind": sec + "-oracle", "section": sec, "case": cases[i], "observed": obs[i],
-                           "tables": {"locals": inp["locals"], "types": inp["types"]} if sec in ("sweep", "decide") else None,
-                           "model_disagrees_too": i in idxs_agree}, suffix=sec)
+                          {"kind": sec + "-oracle", "section": sec, "case": cases[i], "observed": obs[i], "tables": tables,
+                           "model_disagrees_too": i in idxs_agree,
+                           "how_to_replay": "python3 tools/check.py C30 --replay <this file>"}, suffix=sec)
             reported = True
         rest = [i for i in idxs_agree if i not in idxs_oracle]
         if rest:
-            i = shrink_index(sec, rest, cases, obs, inp, meta, P)
-            res.violation("%s: model and implementation disagree (%d cases)" % (what, len(idxs_agree)),
-                          {"kind": "correspondence", "correspondence": TIE_NAME, "section": sec, "case": i[0], "observed": i[1],
-                           "tables": {"locals": inp["locals"], "types": inp["types"]} if sec in ("sweep", "decide") else None,
-                           "disagreeing_cases": len(idxs_agree)}, no_input=True, suffix="corr")
-            reported = True
+            c, o = shrink_index(sec, rest, cases, obs)
+            deferred.append(("%s: model and implementation disagree (%d cases)" % (what, len(idxs_agree)),
+                             {"kind": "correspondence", "correspondence": TIE_NAME, "section": sec, "case": c, "observed": o,
+                              "tables": tables, "disagreeing_cases": len(idxs_agree)}))
 
     report("sweep", sw["agree"], sw["oracle"], inp["sweep"], out["sweep"], "sweep (handler + Router + Registry)")
     report("decide", dc["agree"], dc["oracle"], [dict(d, vals=[b64(v) for v in d["vals"]]) for d in meta["decide"]], out["decide"], "decideForward")
     report("e2e", ee["agree"], ee["oracle"], inp["e2e"], out["e2e"], "cluster of real nodes")
+    for summary, obj in deferred:
+        res.violation(summary, obj, no_input=True, suffix="corr")
+        reported = True
 
+    if failed:
+        res.notes.append("proof obligations not discharged: " + "; ".join(r for _, r in failed))
     if failed and not reported:
         res.violation("proof obligation(s) no longer check: " + "; ".join(r for _, r in failed),
                       {"kind": "obligation-failed", "theorems": [t for t, _ in failed], "detail": [r for _, r in failed],
                        "params": res.cov["params"]}, no_input=True, suffix="obligation")
 
 
-def shrink_index(sec, idxs, cases, obs, inp, meta, P):
+def shrink_index(sec, idxs, cases, obs):
     """Smallest disagreeing case (fewest peers / nodes) - the spaces are enumerated, so the
     smallest member of the failing set is the shrunk witness."""
     def size(i):
@@ -711,7 +819,7 @@ def shrink_index(sec, idxs, cases, obs, inp, meta, P):
 
 def replay(res, path):
     obj = json.load(open(path))
-    P = translate_params()
+    P = static_facts()
     kind = obj.get("kind", "")
     if kind == "endpoint-processed-by-incapable-node" or obj.get("section") == "endpoints":
         inp, meta = harness_input(P, "quick", 1, sections=())
